@@ -219,12 +219,15 @@ func Run(c *verdict.Ctx) int {
 		return runChild(c, runBignum)
 	case "svc":
 		return runChild(c, runSvc)
+	case "unsub":
+		return runChild(c, runUnsub)
 	}
 	c.Level = "exploration"
 	c.Rule = "qdiff: a (query, event map) pair is distinct by its text and non-trivial when the reference verdict is true or false (not error) and the query's keys occur in the map; " +
 		"pubsub: a run (seeded set of subscriptions, publication list, subscribe/unsubscribe script) is distinct by its descriptor and non-trivial when >= 2 subscriptions each had >= 1 event they were obliged to receive; " +
 		"index: a search is distinct by (run, kind, query text) and non-trivial when it has >= 2 conditions or its reference result is a non-empty proper subset of the indexed items; " +
 		"bignum: a (run, query) is distinct by its text and non-trivial when the exact oracle matches a non-empty proper subset of the published items; " +
+		"unsub: a run is distinct by its descriptor; scenario A is non-trivial when the failing Unsubscribe really failed and the run completed, scenario B when Subscribe returned >= 2 handles; " +
 		"svc: a (run, block) is distinct by (run, height, whether its block-event indexing failed) and non-trivial when the block has >= 1 tx"
 	c.Assume(
 		"query semantics: a condition holds iff any value under its key satisfies it, conjunction over conditions (rpc/openapi subscribe description, query package comment); comparisons of a number/time operand with a value that is not a canonical non-negative integer / RFC3339 time / date are undefined and impose no obligation",
@@ -253,6 +256,10 @@ func Run(c *verdict.Ctx) int {
 			bignumCase(c, c, ref.Case)
 		case "svc":
 			svcCase(c, c, ref.Case)
+		case "unsub":
+			for i := 0; i < 50 && c.Violations() == 0; i++ { // scenario B depends on scheduling
+				unsubCase(c, c, ref.Case)
+			}
 		default:
 			c.HarnessError("unknown stream %q in replay file", ref.Stream)
 		}
@@ -281,10 +288,13 @@ func Run(c *verdict.Ctx) int {
 	if want("svc") {
 		runStage(c, "svc", self, false, runSvc, c.N(300, 8000), 2000)
 	}
+	if want("unsub") {
+		runStage(c, "unsub", os.Getenv("VERIF_RACE_BIN"), true, runUnsub, c.N(200, 6000), 2000)
+	}
 	c.Set("exploratory_first_disagreement_per_class", explore.snapshot())
 
 	min := 2000
-	if only == "" && c.Violations() == 0 && (c.Counter("pubsub.runs") == 0 || c.Counter("index.searches") == 0 || c.Counter("qdiff.pairs") == 0 || c.Counter("bignum.pairs") == 0 || c.Counter("svc.tx_by_hash") == 0) {
+	if only == "" && c.Violations() == 0 && (c.Counter("pubsub.runs") == 0 || c.Counter("index.searches") == 0 || c.Counter("qdiff.pairs") == 0 || c.Counter("bignum.pairs") == 0 || c.Counter("svc.tx_by_hash") == 0 || c.Counter("unsub.A.runs") == 0 || c.Counter("unsub.B.runs") == 0) {
 		c.HarnessError("a stage observed nothing: qdiff=%d pubsub=%d index=%d", c.Counter("qdiff.pairs"), c.Counter("pubsub.runs"), c.Counter("index.searches"))
 	}
 	return c.Finish(min)
@@ -334,9 +344,13 @@ func runStage(c *verdict.Ctx, stage, bin string, race bool, fn stageFn, n, chunk
 		}
 	}
 	if race {
-		c.Set("pubsub_race_build", true)
-		c.Set("race_reports_total", raceTotal)
-		c.Set("race_reports_dedup", raceDedup)
+		sfx := ""
+		if stage != "pubsub" {
+			sfx = "_" + stage
+		}
+		c.Set("pubsub_race_build"+sfx, true)
+		c.Set("race_reports_total"+sfx, raceTotal)
+		c.Set("race_reports_dedup"+sfx, raceDedup)
 	}
 }
 
